@@ -440,13 +440,35 @@ package encoding
 //@   loop 2 invariant rawMap.Fields == old(rawMap.Fields)
 //@   loop 2 invariant (refOf(rawMap.Keys) == refOf(old(rawMap.Keys)) || fresh(rawMap.Keys))
 
+// Which field names the profile: THE ordinary field whose cbor key part is "265" (eat_profile) or "-75000"
+// (psa-profile); failing that, THE ordinary field without a cbor tag that is called Profile (the postconditions speak
+// about the case where that field is unique at its level -- two fields under one key or name are not a valid claims
+// type; the loop invariants record that the code takes the first resp. the last); failing that, the embedded members
+// are asked in turn. Its JSON member name is the key part of its json tag. (Spec functions over
+// A-REFLECT-FUN; "the claims type's profile field" of C07 / C16.)
+//@ spec pfKeyPart(t reflect.Type, j int, codec string) string = splitAt(tagVal(sfTag(t, j), codec), ",", 0)
+//@ spec pfByKey(t reflect.Type, j int) bool = !wkMerged(t, j) && tagHas(sfTag(t, j), "cbor") && (pfKeyPart(t, j, "cbor") == "265" || pfKeyPart(t, j, "cbor") == "-75000")
+//@ spec pfByName(t reflect.Type, j int) bool = !wkMerged(t, j) && !tagHas(sfTag(t, j), "cbor") && sfName(t, j) == "Profile"
+//@ spec pfAnswer(t reflect.Type, j int, r0 string, r1 error) bool = (r1 == nil) == tagHas(sfTag(t, j), "json") && (r1 == nil ==> r0 == pfKeyPart(t, j, "json")) && (r1 != nil ==> !errIs(r1, errNoProfile))
+
+//@ spec pfByKeyAns(t reflect.Type, v reflect.Value, r0 string, r1 error) bool = forall(j, 0, rvNumField(v), pfByKey(t, j) && forall(k, 0, rvNumField(v), k != j ==> !pfByKey(t, k)) ==> pfAnswer(t, j, r0, r1))
+//@ spec pfByNameAns(t reflect.Type, v reflect.Value, r0 string, r1 error) bool = forall(k, 0, rvNumField(v), !pfByKey(t, k)) ==> forall(j, 0, rvNumField(v), pfByName(t, j) && forall(k, 0, rvNumField(v), k != j ==> !pfByName(t, k)) ==> pfAnswer(t, j, r0, r1))
+//@ spec pfNoneAns(t reflect.Type, v reflect.Value, r1 error) bool = forall(k, 0, rvNumField(v), !pfByKey(t, k) && !pfByName(t, k) && !wkMerged(t, k)) ==> errIs(r1, errNoProfile)
+
 //@ func encoding.doGetProfileJSONTag
 //@   property C07 C16 C12 C05
 //@   requires dynType(structType) != 0
 //@   ensures[err] true
+//@   ensures[by-key] pfByKeyAns(structType, structVal, ret0, ret1)
+//@   ensures[by-name] pfByNameAns(structType, structVal, ret0, ret1)
+//@   ensures[none] pfNoneAns(structType, structVal, ret1)
 //@   modifies nothing
 //@   option assume-recursion-terminates=each recursive call descends into the type of an embedded field; Go types nest finitely
 //@   loop 0 invariant i >= 0
+//@   loop 0 invariant forall(j, 0, i, j < rvNumField(structVal) && !pfByKey(structType, j))
+//@   loop 0 invariant (foundByFieldName == nil) == forall(j, 0, i, !pfByName(structType, j))
+//@   loop 0 invariant foundByFieldName != nil ==> forall(j, 0, i, pfByName(structType, j) && forall(k, j + 1, i, !pfByName(structType, k)) ==> foundByFieldName.Tag == sfTag(structType, j))
+//@   loop 0 invariant len(embeds) > 0 ==> exists(j, 0, i, wkMerged(structType, j))
 //@   loop 0 invariant embedsOK(embeds)
 //@   loop 0 invariant (embeds == nil || fresh(embeds))
 //@   loop 0 invariant dynType(structType) != 0
